@@ -1,4 +1,7 @@
 import Tranp.Str
+import Tranp.Prec
+import Tranp.Lemmas.Prec
 import Tranp.Model.AstPath
+import Tranp.Lemmas.AstPath
 import Tranp.Driver
 import Tranp.Props.C10
